@@ -72,7 +72,7 @@ func (rs *replSession) feed(ctx context.Context, src string) (res pieceResult) {
 	if !ok || tos == nil {
 		return pieceResult{Val: "nil"}
 	}
-	return pieceResult{Val: tos.Inspect()}
+	return pieceResult{Val: safeInspect(tos)}
 }
 
 // globals returns name -> Inspect for every script-defined global.
@@ -92,10 +92,21 @@ func (rs *replSession) globals(skip map[string]bool) map[string]string {
 		case obj == nil:
 			out[name] = "<unset>"
 		default:
-			out[name] = obj.Inspect()
+			out[name] = safeInspect(obj)
 		}
 	}
 	return out
+}
+
+// safeInspect renders a value; a value so corrupt that rendering it panics is
+// reported as such (and then shows up as a difference), not as a harness crash.
+func safeInspect(obj object.Object) (s string) {
+	defer func() {
+		if r := recover(); r != nil {
+			s = fmt.Sprintf("<Inspect panicked: %v>", r)
+		}
+	}()
+	return obj.Inspect()
 }
 
 func diffGlobals(a, b map[string]string) string {
